@@ -24,6 +24,7 @@ type CircuitOpts struct {
 	// ZeroWidth: one case in ten gives one party (not all) a 0-bit argument
 	// ([0]byte, or an unsized argument instantiated with nothing).
 	ZeroWidth bool
+	FixedOuts int // if > 0: exactly this many declared outputs
 	ANDHeavy bool
 }
 
@@ -74,6 +75,9 @@ func Circuit(t *rt.Tape, o CircuitOpts) *circuit.Circuit {
 		nin += bits
 	}
 	nouts := 1 + t.Choose(rt.SGen, o.MaxOuts)
+	if o.FixedOuts > 0 {
+		nouts = o.FixedOuts
+	}
 	outSize := 0
 	for i := 0; i < nouts; i++ {
 		w := 1 + t.Choose(rt.SGen, o.MaxOutW)
